@@ -211,7 +211,7 @@ def constraint_sources(fn, expr):
 
 def check_constrained_weight(prog, res, fn, weight_name, constraint_cls,
                              rule='W2', implications=None,
-                             covered_elsewhere=None):
+                             covered_elsewhere=None, state_filter=None):
   """The add_weight of `weight_name` passes constraint=<instance of
   constraint_cls> on every configuration in which that constraint acts."""
   from . import guards
@@ -244,4 +244,6 @@ def check_constrained_weight(prog, res, fn, weight_name, constraint_cls,
       norm_text(cexpr)[:30], constraint_cls.name))
   guards.check_guard(prog, res, fn, inst, constraint_cls, rule=rule,
                      key=key + '|guard', implications=implications,
-                     covered_elsewhere=covered_elsewhere)
+                     covered_elsewhere=covered_elsewhere,
+                     precondition=structural_guards(fn.node, call) or [],
+                     state_filter=state_filter)
